@@ -54,7 +54,9 @@ ID = "C09"
 LEVEL = "exploration"
 RULE = ("single value: (value class, addressing kind, image, last accessible location, hole set, initial lock byte, "
         "fault) tuples - complete over value x last location 0..254 and value x single hole for a static image, "
-        "fault at every read index, plus Hypothesis-generated tuples; whole bank: (bank object, addressing, image, last "
+        "fault at every read index, string values x each of the bytes 0x00 0x01 0x1f 0x20 0x7e 0x7f 0x80 0xff alone at every "
+        "position of otherwise plain text (NUL also with bytes >= 0x80 behind it) and as the whole field, plus "
+        "Hypothesis-generated tuples; whole bank: (bank object, addressing, image, last "
         "location 0..254, hole set, use_latch, drift, fault) tuples likewise; distinct by construction (enumeration) or by "
         "fingerprint (Hypothesis); non-trivial = at least one declared value is truncated by the last location or has a "
         "hole, or a fault is injected, or (whole bank) the latch is set while live memory drifts; several sequences in "
@@ -339,7 +341,8 @@ def prng(seed, n=NLOC):
 
 
 def make_image(spec, bankobj):
-    """Image spec -> list of NLOC ints/None.  'ff' | '00' | 'ramp' | 'default' | ['prng', n] | ['hex', s]"""
+    """Image spec -> list of NLOC ints/None.  'ff' | '00' | 'ramp' | 'default' | ['prng', n] | ['hex', s] |
+    ['text', byte, pos[, tail]] (see text_image)"""
     if spec == "ff":
         return [0xFF] * NLOC
     if spec == "00":
@@ -356,7 +359,44 @@ def make_image(spec, bankobj):
     if spec[0] == "hex":
         b = bytes.fromhex(spec[1])
         return list((b + bytes(NLOC))[:NLOC])
+    if spec[0] == "text":
+        return text_image(bankobj, *spec[1:])
     raise ValueError("image spec %r" % (spec,))
+
+
+# the bytes at which the interpretation of a string changes: NUL ends it, 0x01..0x7f are its characters (0x1f / 0x20 and
+# 0x7e / 0x7f: control characters next to the printable range), 0x80..0xff make it invalid
+TEXT_BYTES = (0x00, 0x01, 0x1F, 0x20, 0x7E, 0x7F, 0x80, 0xFF)
+
+
+def string_rows(bankobj):
+    return sorted((r for r in all_rows().values() if r["bankobj"] == bankobj and r["kind"] == "string"), key=lambda r: r["first"])
+
+
+def text_image(bankobj, byte, pos, tail="ascii"):
+    """A pseudo-random image in which every string value of the bank holds plain letters and digits, except for `byte`
+    at position `pos` of the string (counted from its end if negative, taken modulo its length otherwise; "all": the whole
+    field is that byte).  tail = "high": what follows that position is bytes >= 0x80 (meaningless behind a NUL)."""
+    if not (isinstance(byte, int) and 0 <= byte <= 255):
+        raise ValueError("text image byte %r" % (byte,))
+    img = prng(7001 + 257 * byte + (pos if isinstance(pos, int) else 999))
+    plain = b"ABCDEFGHIJKLMNOPQRSTUVWXYZ0123456789abcdefghijklmnopqrstuvwxyz"
+    for r in string_rows(bankobj):
+        locs = r["locs"]
+        n = len(locs)
+        field = [plain[(i + byte) % len(plain)] for i in range(n)]
+        if pos == "all":
+            field = [byte] * n
+        else:
+            k = pos % n
+            field[k] = byte
+            if tail == "high":
+                field[k + 1:] = [0x80 + ((i * 37 + byte) & 0x7F) for i in range(n - k - 1)]
+            elif tail != "ascii":
+                raise ValueError("text image tail %r" % (tail,))
+        for a, b in zip(locs, field):
+            img[a] = b
+    return img
 
 
 class World:
@@ -1244,6 +1284,9 @@ def features(case):
             f.append("interleaved:with-latch")
         return f
     holes = set(case["holes"])
+    img = case.get("image")
+    if isinstance(img, list) and img and img[0] == "text":
+        f.append("string-image:" + ("nul" if img[1] == 0 else "0x%02x" % img[1] if img[1] in TEXT_BYTES else "other-byte"))
     if case["kind"] == "value":
         row = all_rows()[case["key"]]
         last = case["last"] if case["last"] is not None else 0xFE
@@ -1352,6 +1395,15 @@ def _shard_values(arg):
         for img in IMAGES:
             for addr in ADDRS:
                 run(_value_case(key, addr, short, img, None if img == "default" else 0xFE), "value:image-" + img)
+        # strings: every boundary byte alone at every position of otherwise plain text, NUL at every position with plain
+        # text / with bytes >= 0x80 behind it, and the whole field filled with that byte
+        if row["kind"] == "string":
+            for b in TEXT_BYTES:
+                for pos in list(range(len(locs))) + ["all"]:
+                    for ti, tail in enumerate(("ascii", "high") if b == 0 and pos != "all" else ("ascii",)):
+                        k = (pos if pos != "all" else 1) + b + ti + ki + seed
+                        run(_value_case(key, ADDRS[k % 3], short, ["text", b, pos, tail], 0xFE, lock=LOCKS[k % 3]),
+                            "value:string-image")
         # one fault at each read index, with and without a hole behind it
         for q in range(len(locs) + 1):
             for kind in ("silence", "garble"):
@@ -1390,6 +1442,21 @@ def _shard_banks(arg):
                 for use_latch in latches:
                     run(_bank_case(bankobj, addr, short, img, None if img == "default" else top, use_latch=use_latch),
                         "bank:image-" + img)
+        # banks with string values: every boundary byte at the first / second / last position of each string and as the
+        # whole field; NUL also with bytes >= 0x80 behind it
+        if string_rows(bankobj):
+            for bi, b in enumerate(TEXT_BYTES):
+                for pi, pos in enumerate((0, 1, -1, "all")):
+                    for ti, tail in enumerate(("ascii", "high") if b == 0 and pos != "all" else ("ascii",)):
+                        k = bi + pi + ti + seed
+                        run(_bank_case(bankobj, ADDRS[k % 3], short, ["text", b, pos, tail], top, use_latch=bool(k & 1),
+                                       drift=bool(k & 1)), "bank:string-image")
+            # ... and at a seed-dependent walk through all positions of the longest string
+            longest = max(len(r["locs"]) for r in string_rows(bankobj))
+            for pos in range(longest):
+                b = TEXT_BYTES[(pos + seed) % len(TEXT_BYTES)]
+                run(_bank_case(bankobj, ADDRS[(pos + seed) % 3], short, ["text", b, pos, "high" if pos % 2 else "ascii"], top,
+                               use_latch=bool(pos & 1)), "bank:string-image")
         # nothing but the header answers: every location from the first one read up to the last accessible one is
         # unimplemented (also with one location left that does answer)
         first = 3 if spec["has_lock_byte"] else 2
@@ -1645,7 +1712,9 @@ def _shard_canon(arg):
 def image_st():
     return st.one_of(st.sampled_from(IMAGES), st.tuples(st.just("prng"), st.integers(0, 1 << 20)).map(list),
                      st.tuples(st.just("prng"), st.integers(0, 15)).map(list),
-                     st.binary(min_size=NLOC, max_size=NLOC).map(lambda b: ["hex", b.hex()]))
+                     st.binary(min_size=NLOC, max_size=NLOC).map(lambda b: ["hex", b.hex()]),
+                     st.tuples(st.just("text"), st.one_of(st.sampled_from(TEXT_BYTES), st.integers(0, 255)),
+                               st.one_of(st.integers(-3, 70), st.just("all")), st.sampled_from(["ascii", "high"])).map(list))
 
 
 _SPELL_ST = st.one_of(st.none(), st.none(), st.sampled_from(SPELL_STYLES))
